@@ -34,7 +34,7 @@ def checks_for(path):
 
 
 def sh(*a, **k):
-    return subprocess.run(a, stdout=subprocess.PIPE, stderr=subprocess.STDOUT, text=True, **k)
+    return subprocess.run(a, stdout=subprocess.PIPE, stderr=subprocess.STDOUT, text=True, errors="replace", **k)
 
 
 def code_part(line):
